@@ -175,7 +175,7 @@ Qed.
 Lemma row_ok_read cr : row_ok cr -> row_ok (cread_row cr).
 Proof.
   intros [He Hr]. unfold row_ok, cread_row. cbn [cr_row cr_kind cr_uuid r_edges r_type r_node_name]. split; [|exact Hr].
-  unfold read_edges. destruct drops_padding_edges_everywhere; [|exact He].
+  unfold read_edges. destruct padding_edges_dropped_at_read; [|exact He].
   unfold drop_padding. destruct (r_edges (cr_row cr)) as [|e0 rest]; [constructor|]. inversion He as [|? ? H0 Hrest]; subst.
   constructor; [exact H0|]. rewrite Forall_forall in *. intros e Hin. apply filter_In in Hin as [Hin _]. auto.
 Qed.
